@@ -11,7 +11,7 @@ from .core import eao_call, is_err
 class Run:
     """fresh objects + assembled problem (+ solution, output) for a spec"""
 
-    def __init__(self, spec, split=None, setup=True, fix_time_window=None):
+    def __init__(self, spec, split=None, setup=True, fix_time_window=None, preset_grid=False):
         self.spec = spec
         self.pf, self.grid, self.prices = build.build_all(spec)
         self.split = split
@@ -24,6 +24,10 @@ class Run:
                                    fix_time_window=fix_time_window)
             elif split:
                 self.op = eao_call(self.pf.setup_split_optim_problem, self.prices, self.grid, interval_size=split)
+            elif fix_time_window is not None and preset_grid:
+                # documented call form: grid set beforehand, `timegrid` left at its default
+                self.pf.set_timegrid(self.grid)
+                self.op = eao_call(self.pf.setup_optim_problem, self.prices, fix_time_window=fix_time_window)
             elif fix_time_window is not None:
                 self.op = eao_call(self.pf.setup_optim_problem, self.prices, self.grid,
                                    fix_time_window=fix_time_window)
